@@ -720,7 +720,7 @@ func (ce *callEngine) callNativeFunc(ctx context.Context, m *wasm.ModuleInstance
 		// how the stack is modified, etc.
 		switch op.Kind {
 		case operationKindBuiltinFunctionCheckExitCode:
-			if err := m.FailIfClosed(); err != nil {
+			if err := ce.f.moduleInstance.FailIfClosed(); err != nil {
 				panic(err)
 			}
 			frame.pc++
